@@ -1,0 +1,10 @@
+//go:build verif
+
+package ruleguard
+
+// Verification hook for the comment-rule span check (build tag `verif`). Not part of the API.
+
+// VerifCommentTextSpan exposes commentTextSpan.
+func VerifCommentTextSpan(src []byte, base int, text string, begin, end int) (from, to int) {
+	return commentTextSpan(src, base, text, begin, end)
+}
